@@ -91,6 +91,48 @@ macro_rules! uni_impl {
     };
 }
 
+macro_rules! multi_impl {
+    ($ty:ty, $item:ty, $conv:expr, $has_rsv:expr) => {
+        impl UniApi for W<$ty> {
+            fn send(&self, v: u32) -> bool { self.0.send(v).is_ok() }
+            fn send_with(&self, v: u32) -> bool { self.0.send_with(move |slot| *slot = v).is_ok() }
+            fn async_start(&self, v: u32, gate: Arc<AtomicBool>) -> Pin<Box<dyn Future<Output = bool> + Send>> {
+                let ch: &'static $ty = &**self.0;
+                Box::pin(async move { ch.send_with_async(move |slot| async move { Gate(gate).await; *slot = v; slot }).await.is_ok() })
+            }
+            fn has_rsv(&self) -> bool { $has_rsv }
+            fn reserve_send(&self, v: u32) -> Option<bool> {
+                if !$has_rsv { return None }
+                match self.0.reserve_slot() { Some(slot) => { *slot = v; Some(self.0.try_send_reserved(slot)) } None => Some(false) }
+            }
+            fn create_stream(&self) -> Box<dyn PollS> { let (s, _id) = self.0.create_stream_for_new_events(); Box::new(S(s)) }
+            fn cancel_stream(&self, id: u32) { self.0.verif_streams_manager().cancel_stream(id) }
+            fn cancel_all(&self) { self.0.cancel_all_streams() }
+            fn pending(&self) -> u32 { self.0.pending_items_count() }
+            fn is_open(&self) -> bool { self.0.is_channel_open() }
+            fn running(&self) -> u32 { self.0.running_streams_count() }
+        }
+        impl PollS for S<reactive_mutiny::mutiny_stream::MutinyStream<'static, u32, $ty, $item>> {
+            fn poll(&mut self, w: &Waker) -> Poll<Option<(u32, Handle)>> {
+                let mut cx = Context::from_waker(w);
+                match Pin::new(&mut self.0).poll_next(&mut cx) {
+                    Poll::Ready(Some(it)) => Poll::Ready(Some(($conv)(it))),
+                    Poll::Ready(None) => Poll::Ready(None),
+                    Poll::Pending => Poll::Pending,
+                }
+            }
+        }
+    };
+}
+macro_rules! multi_kinds { ($n:literal) => {
+    multi_impl!(ChannelMultiArcAtomic<u32, $n, 1>, Arc<u32>, |a: Arc<u32>| (*a, Some(Box::new(a) as Box<dyn std::any::Any + Send>)), false);
+    multi_impl!(ChannelMultiArcFullSync<u32, $n, 1>, Arc<u32>, |a: Arc<u32>| (*a, Some(Box::new(a) as Box<dyn std::any::Any + Send>)), false);
+    multi_impl!(ChannelMultiArcCrossbeam<u32, $n, 1>, Arc<u32>, |a: Arc<u32>| (*a, Some(Box::new(a) as Box<dyn std::any::Any + Send>)), false);
+    multi_impl!(ChannelMultiOgreArcAtomic<u32, $n, 1>, OgreArc<u32, AllocatorAtomicArray<u32, $n>>, |a: OgreArc<u32, AllocatorAtomicArray<u32, $n>>| (*a, Some(Box::new(a) as Box<dyn std::any::Any + Send>)), true);
+    multi_impl!(ChannelMultiOgreArcFullSync<u32, $n, 1>, OgreArc<u32, AllocatorFullSyncArray<u32, $n>>, |a: OgreArc<u32, AllocatorFullSyncArray<u32, $n>>| (*a, Some(Box::new(a) as Box<dyn std::any::Any + Send>)), true);
+} }
+multi_kinds!(8); multi_kinds!(16);
+
 macro_rules! kinds {
     ($n:literal, $m:literal) => {
         uni_impl!(ChannelUniMoveAtomic<u32, $n, $m>, u32, |v: u32| (v, None), true);
@@ -104,7 +146,19 @@ kinds!(2, 1); kinds!(2, 2); kinds!(4, 1); kinds!(4, 2);
 
 fn leak<C: 'static>(c: Arc<C>) -> &'static Arc<C> { Box::leak(Box::new(c)) }
 
+fn make_multi(kind: &str, n: usize) -> Arc<dyn UniApi> {
+    macro_rules! mk { ($n:literal) => { match kind {
+        "marc_atomic" => Arc::new(W(leak(ChannelMultiArcAtomic::<u32, $n, 1>::new("vh")))) as Arc<dyn UniApi>,
+        "marc_fullsync" => Arc::new(W(leak(ChannelMultiArcFullSync::<u32, $n, 1>::new("vh")))),
+        "marc_crossbeam" => Arc::new(W(leak(ChannelMultiArcCrossbeam::<u32, $n, 1>::new("vh")))),
+        "mogre_atomic" => Arc::new(W(leak(ChannelMultiOgreArcAtomic::<u32, $n, 1>::new("vh")))),
+        _ => Arc::new(W(leak(ChannelMultiOgreArcFullSync::<u32, $n, 1>::new("vh")))),
+    } } }
+    if n == 8 { mk!(8) } else { mk!(16) }
+}
+
 fn make(kind: &str, n: usize, m: usize) -> Arc<dyn UniApi> {
+    if kind.starts_with("marc") || kind.starts_with("mogre") { return make_multi(kind, n) }
     macro_rules! mk { ($n:literal, $m:literal) => { match kind {
         "matomic" => Arc::new(W(leak(ChannelUniMoveAtomic::<u32, $n, $m>::new("vh")))) as Arc<dyn UniApi>,
         "mfullsync" => Arc::new(W(leak(ChannelUniMoveFullSync::<u32, $n, $m>::new("vh")))),
@@ -135,11 +189,14 @@ enum Sub { Flow, Cancel, Fine, Susp }
 
 fn run_one(kind: &str, sub: Sub, seed: u64, replay: Option<Vec<u8>>) -> (sched::Outcome, Vec<(String, String)>, String, String) {
     let mut rng = Rng::new(seed ^ 0xC0FFEE);
-    let n = if rng.chance(1, 2) { 2 } else { 4 };
-    let mx = rng.range(1, 2) as usize;
+    let is_multi = kind.starts_with("marc") || kind.starts_with("mogre");
+    let n = if is_multi { let _ = rng.chance(1, 2); 16 } else if rng.chance(1, 2) { 2 } else { 4 };
+    let mx = if is_multi { 1 } else { rng.range(1, 2) as usize };
     let k = rng.range(1, mx as u64) as usize;
     let ch = make(kind, n, mx);
-    let zc = kind.starts_with('z');
+    // Multi channels seen through one listener: every send allocates first (Arc / pool slot) and touches the listener's queue after
+    // the await -- the zero-copy flavour of the asynchronous send; only the ogre_arc pool bounds what is outstanding
+    let zc = kind.starts_with('z') || is_multi;
     let mov_async_ok = kind == "matomic";       // movable full-sync holds the queue lock while suspended: only alone (sub susp)
     let np = rng.range(1, 3) as usize;
     let prequeued = if sub == Sub::Fine { rng.below(3) } else { 0 };
@@ -403,7 +460,8 @@ fn run_one(kind: &str, sub: Sub, seed: u64, replay: Option<Vec<u8>>) -> (sched::
     drop(s);
     // a channel abandoned in the middle of an operation must not be dropped
     std::mem::forget(ch);
-    let rule = match kind { "matomic" | "zatomic" => "atomic", "mcrossbeam" => "cb", _ => "fs" };
+    let rule = match kind { "matomic" | "zatomic" => "atomic", "mcrossbeam" => "cb", "marc_atomic" | "mogre_atomic" => "m2", "marc_fullsync" | "mogre_fullsync" => "m1", "marc_crossbeam" => "mcb", _ => "fs" };
+    let zc = if kind.starts_with("marc") { false } else { zc };   // Arc payloads live on the heap: no pool capacity
     let cfg = format!("cfg model=wake N={n} MAX={mx} k={k} rule={rule} zc={} pre={prequeued}", if zc { 1 } else { 0 });
     (outcome, viol, cfgkey, cfg)
 }
